@@ -467,7 +467,12 @@ func soloResult(p *Project, o Opts) Result {
 
 func (c *c16) checkW1(cs *Case, ex *c16extra, record bool) *Case {
 	ps := []*Project{&cs.Project}
+	d0 := projectDigest(&cs.Project)
 	for i := range ex.Projects {
+		if projectDigest(&ex.Projects[i]) == d0 {
+			ps = append(ps, &cs.Project) // the very same project again
+			continue
+		}
 		q := rebase(&ex.Projects[i], fmt.Sprintf("/sim/w1g%d", i+1))
 		ps = append(ps, &q)
 	}
@@ -499,9 +504,18 @@ func (c *c16) checkW1(cs *Case, ex *c16extra, record bool) *Case {
 	fns := make([]func(), len(ps))
 	// one set of option values for all goroutines, as a server would keep it
 	shared := cs.Opts.options()
+	bufs := map[uint64][]byte{}
 	for i := range ps {
 		i := i
-		fns[i] = func() { res[i] = runLibraryWith(ps[i].Root, ps[i].content(ps[i].absRoot()), shared, cs.Opts.Entry) }
+		content := ps[i].content(ps[i].absRoot())
+		// identical roots under the same name share one buffer (a server caches the file it serves)
+		key := hash64(ps[i].Root) ^ hash64(string(content))
+		if b, ok := bufs[key]; ok {
+			content = b
+		} else {
+			bufs[key] = content
+		}
+		fns[i] = func() { res[i] = runLibraryWith(ps[i].Root, content, shared, cs.Opts.Entry) }
 	}
 	panics := simrt.RunGoroutines(fns)
 	simrt.SetBudget(^uint64(0), ^uint64(0))
@@ -564,7 +578,14 @@ func (c *c16) checkW2(cs *Case, ex *c16extra, record bool) *Case {
 	if je := jc.ValidateJAPI(); je != nil {
 		return nil
 	}
-	cat := jc.Catalog()
+	soloCat := jc.Catalog()
+	// the readers get a second catalog of the same project that nobody has serialised yet:
+	// state that the first serialisation creates lazily must be created under concurrency
+	jc2 := core.NewJApiCore(schemafs.NewFile(p.Root, p.content(p.absRoot())), cs.Opts.options()...)
+	if je := jc2.ValidateJAPI(); je != nil {
+		return nil
+	}
+	cat := soloCat
 	// solo outputs
 	read := func(kind string) string {
 		switch kind {
@@ -589,6 +610,7 @@ func (c *c16) checkW2(cs *Case, ex *c16extra, record bool) *Case {
 			solo[k] = read(k)
 		}
 	}
+	cat = jc2.Catalog()
 	c.startSim(cs, ex, cs.Seed+12)
 	simrt.FS = mountProject(p, refEnv, nil)
 	outs := make([]string, len(ex.Readers))
